@@ -746,32 +746,42 @@ def run(run: core.Run, tier: str):
               surrogate=(("tanh", dth) if an else ("scaled_identity", F(1))),
               key=dict(cls=cls, alpha=str(kw.get("alpha")), phase=phase), pre=(ys.ravel(), gs.ravel()))
       # binary(use_stochastic_rounding=True): in the training phase the carrier is f * round_through(x / f) with
-      # f = 2 * min(max|x|, 1) — one line per scale group; tensors with a unique arg-max +-2^k per group so that
-      # every float32 operation is exact (k <= 0: f differentiable; k = 1: clamped to 1)
+      # f = stop_gradient(2 * min(max|x|, 1)) — one line per scale group (channel of the last axis; the whole
+      # tensor for rank 1); the extreme elements are +-2^k so that every float32 operation is exact (k <= 0: 2*m
+      # depends on the input; k = 1: clamped to 1).  Every second group has its maximum attained TWICE (TF would
+      # split a max-gradient among ties), rank 3 included.  The gradient of EVERY element, the arg-max included,
+      # must be exactly 1 (tanh' of the carrier for alpha=None): a normaliser that carries a gradient is a violation.
       for alpha in (None, 1.0, 0.5, "auto", "auto_po2"):
-        for rank2 in (False, True):
-          kexp = [int(k) for k in rng.permutation([-2, -1, 0, 1])[: (3 if rank2 else 1)]]
-          if not rank2 and phase == 1 and alpha in (1.0, None):
+        for shape_kind in ("rank1", "rank2", "rank3"):
+          ncol = {"rank1": 1, "rank2": 3, "rank3": 2}[shape_kind]
+          nel = 12 if shape_kind == "rank3" else 10
+          kexp = [int(k) for k in rng.permutation([-2, -1, 0, 1])[:ncol]]
+          if shape_kind == "rank1" and phase == 1 and alpha in (1.0, None):
             kexp = [-1]
           cols = []
-          for k in kexp:
+          for ci, k in enumerate(kexp):
             mval = 2.0 ** k
             fval = 2.0 * min(mval, 1.0)
-            c = rng.integers(-63, 64, size=10) * (fval / 64.0)
+            c = rng.integers(-63, 64, size=nel) * (fval / 64.0)
             c = np.clip(c, -mval * 63 / 64, mval * 63 / 64)
             c[1] = 0.0
             c[0] = mval if rng.integers(0, 2) else -mval
+            if ci % 2 == 1 or (shape_kind == "rank1" and alpha in (0.5, "auto")):
+              c[3] = mval if rng.integers(0, 2) else -mval      # the maximum is attained twice
+              run.count("binary_sr_group_with_tied_maximum")
             cols.append(c)
           x2 = np.stack(cols, axis=1).astype(np.float32)
-          if not rank2:
+          if shape_kind == "rank1":
             x2 = x2[:, 0]
+          elif shape_kind == "rank3":
+            x2 = x2.reshape(3, 4, ncol)
           w = po2w(x2.shape)
           U = draws(x2.size).reshape(x2.shape)
           q = Q.binary(alpha=alpha, use_stochastic_rounding=True)
           ys, gs = measure(q, x2, w, phase=phase, U=U.ravel())
-          X = x2.reshape(len(x2), -1)
-          Y, G, W, UU = (a.reshape(len(x2), -1) for a in (ys, gs, w, U))
-          for j in range(X.shape[1]):
+          X = x2.reshape(-1, ncol)
+          Y, G, W, UU = (np.asarray(a).reshape(-1, ncol) for a in (ys, gs, w, U))
+          for j in range(ncol):
             xc, uc = X[:, j].astype(np.float64), UU[:, j].astype(np.float64)
             mval = float(np.max(np.abs(xc)))
             fval = 2.0 * min(mval, 1.0)
@@ -781,6 +791,8 @@ def run(run: core.Run, tier: str):
               xr = (np.where(sx - fl < uc, fl, np.ceil(sx)) / 8.0 * fval).astype(np.float32)
             else:
               xr = xc.astype(np.float32)
+            # oracle inputs: tanh and tanh' at the CARRIER (the rounded tensor in training — recorded finding
+            # C06-binary-sr-train-tanh-at-rounded) for the model; tanh' at the input itself for the clause
             xt = tf.constant(xr)
             with tf.GradientTape() as tape:
               tape.watch(xt)
@@ -800,7 +812,7 @@ def run(run: core.Run, tier: str):
                 surrogate=(("tanh", dth0) if alpha is None else ("scaled_identity", F(1))),
                 key=dict(cls="binary", alpha_none=alpha is None, stoch=True, phase=phase),
                 pre=(Y[:, j], G[:, j]))
-            run.count("binary_sr_phase%d_f_%s" % (phase, "differentiable" if mval <= 1.0 else "clamped"), len(xc))
+            run.count("binary_sr_phase%d_2m_%s" % (phase, "depends_on_input" if mval <= 1.0 else "clamped"), len(xc))
 
     # ---------------------------------------------------------------------------------------------------
     # stream `slopes`: every legal negative_slope (0, 2^-k, 1, 2, 4 — the constructors only require a power of
@@ -1135,8 +1147,6 @@ def run(run: core.Run, tier: str):
         # oracle-input device: tanh' / sigmoid' products are float32 roundings of the exact product
         okt = okt or abs(fg - mt) <= abs(mt) * F(1, 2 ** 21) + F(1, 2 ** 40)
         okv = okv or m["op"] in ("binter", "binary_sr") and abs(fy - mv) <= abs(mv) * F(1, 2 ** 22)
-        # binary_sr: the arg-max element's gradient is a float32 SUM over the scale group (cancellation)
-        okt = okt or m["op"] == "binary_sr" and abs(fg - mt) <= F(1, 2 ** 16)
       if not (okv and okt):
         bad.append((float(x), [float(y), float(g)], [float(mv), float(mt)]))
     if bad:
